@@ -164,7 +164,18 @@ namespace net
         cnt.inc("skipped.assume_none_undefined");
         return;
       }
-      lit p = und[static_cast<size_t>(std::abs(op.arg(1))) % und.size()];
+      size_t k = static_cast<size_t>(std::abs(op.arg(1)));
+      if (k >= 2000)
+      { // among the constraint literals only
+        std::vector<lit> tund;
+        for (auto v : tlist)
+          if (sat->value(v) == smt::Undefined)
+            tund.push_back(lit(v));
+        if (!tund.empty())
+          und = tund;
+        k -= 2000;
+      }
+      lit p = und[k >= 1000 ? und.size() - 1 - (k - 1000) % und.size() : k % und.size()];
       if (!(op.arg(0) & 1))
         p = !p;
       op_assume(p);
